@@ -116,7 +116,7 @@ const (
 
 	//   0123456789abcdef0123456789abcdef
 	symbolMode = "" +
-		".........ss..s.................." + // 0x00
+		"ssssssssssssssssssssssssssssssss" + // 0x00
 		"ssssssssssssssssssssssssssssssss" + // 0x20
 		"ssssssssssssssssssssssssssssesss" + // 0x40
 		"sssssssssssssssssssssssssssspsss" + // 0x60
